@@ -308,6 +308,22 @@ PROPS["C10"] = dict(
     thorough=dict(shards=16, checks=12, shrink_s=1, timeout_s=7200, env=dict(VERIF_SHRINK_S=90)),
 )
 
+PROPS["C05"] = dict(
+    pkg="props/c05", level="exploration", engine="E-conc", design_ref="§4 C05",
+    technique="concurrent history generation (rapid) with gated flush/compaction schedules (verif-tag writer-open hook) + porcupine linearizability check against a per-key register model",
+    rule=("case = 2..6 client goroutines x 10..60 (thorough 120) Get/Put/Delete over 1..4 hot keys (rewritten constantly) and 1..3 cold keys (written once, then only read), unique values, memstore limit 64..512 B, "
+          "hook-driven or real 1 ms compaction ticker with threshold 0..2, GOMAXPROCS in {1,2,4,16}, generated Gosched points; a chaos goroutine issues rotations and compaction cycles after generated numbers of completed "
+          "operations; half of the cases are gated scenarios that park the flusher or the compactor inside the creation of its table while clients and further rotations run, then release it; invocation/response stamps come "
+          "from one atomic counter; oracle: no operation error, and porcupine finds a linearization of the full history (setup puts, client operations, final sequential reads) per key; porcupine timeouts are counted as "
+          "inconclusive; non-trivial = >=1 flush and >=1 compaction during the history and two clients overlapping on one key; distinct = distinct case JSON"),
+    level_text="Every recorded history is decided exactly by porcupine; the harness owns the interleaving dimension 'client calls vs progress of flush/compaction' through gates, the rest is sampled from the Go scheduler.",
+    level_note="outside the gates the Go scheduler owns the interleaving; a violation needing one specific preemption between adjacent instructions may be missed; a non-linearizable history is always real",
+    assumptions=COMMON_ASSUME + ["porcupine v1.3.0", "hooks: simpledb.Verif*, sstables.VerifSetWriterOpenHook (tag verif)"],
+    require_labels=["gated-scenario-parked-a-background-writer", "flush-during-history", "compaction-during-history", "real-ticker"],
+    quick=dict(shards=16, checks=12, shrink_s=3, env=dict(VERIF_SHRINK_S=30)),
+    thorough=dict(shards=16, checks=600, shrink_s=3, timeout_s=7200),
+)
+
 NOT_APPLICABLE = {}
 
 
